@@ -4,7 +4,7 @@
    stream of the printed document), FmtSafe.v (separators), FmtLex.v (lexer over all layouts). *)
 From Coq Require Import List ZArith NArith String Ascii Bool Lia.
 From SCC Require Import Base.Sexp Lang.SynUtil Lang.FunSyn Model.Printer Model.Parser Model.FmtClass
-  Proof.FmtDefs Proof.FmtRound Proof.FmtGlue.
+  Proof.FmtDefs Proof.FmtRound Proof.FmtGlue Proof.FmtSafe Proof.FmtLex.
 Import ListNotations.
 Local Open Scope string_scope.
 
@@ -131,3 +131,25 @@ Proof.
   unfold renorm_decl. cbn [zsafe_decl] in Hz. rewrite (zsafe_renorm_t (tsz (fdbody d))) by auto.
   destruct d; reflexivity.
 Qed.
+
+(* ---------- layout independence and the round trip on text ---------- *)
+(* every printed document separates sticky atoms by blanks and consists of lexable words .. *)
+Lemma print_is_safe c p : wf_prog p = true -> safe_doc (d_prog c p) = true /\ words_ok (d_prog c p) = true.
+Proof. intros H. split; [now apply safe_print | now apply words_ok_print]. Qed.
+(* .. hence every layout of it - any width, any indentation, any choice at each line / line_ - has the
+   token stream [tokens (d_prog c p)] *)
+Lemma layout_independent c p s :
+  wf_prog p = true -> renders (d_prog c p) s -> lex_string s = Some (tokens (d_prog c p)).
+Proof. intros Hwf Hr. destruct (print_is_safe c p Hwf). now apply render_any_layout_tokens. Qed.
+(* and, outside the defect class, parses back to p *)
+Lemma roundtrip_text_guarded c p s :
+  wf_prog p = true -> zsafe_prog p = true -> renders (d_prog c p) s -> parse_text s = Some p.
+Proof.
+  intros Hwf Hz Hr. unfold parse_text. rewrite (layout_independent c p s Hwf Hr). cbn [obind].
+  now apply roundtrip_guarded.
+Qed.
+(* formatting again (any layout, any configuration c2) gives the document of p again *)
+Lemma idempotent_text_guarded c c2 p s :
+  wf_prog p = true -> zsafe_prog p = true -> renders (d_prog c p) s ->
+  option_map (d_prog c2) (parse_text s) = Some (d_prog c2 p).
+Proof. intros Hwf Hz Hr. now rewrite (roundtrip_text_guarded c p s). Qed.
